@@ -93,6 +93,22 @@ CLAIMS = {
                 'table in rules/C06.py (spec_reply) is transcribed from doc/dbus-daemon.1.xml.in.',
         'design': 'DESIGN.md section 3, C06',
     },
+    'C08': {
+        'technique': 'static analysis: switch-partition extraction of the server state machine compared with the '
+                     'specification table (all commands x states), who-may-transition scans, must-pass-through '
+                     'of each mechanism\'s proof before send_ok, typestate on rejection and buffering, table checks',
+        'text': 'Decides that the server\'s (state, command) -> action table equals the specification\'s server '
+                'state diagrams (30 rows, exhaustive), that "authenticated" is reachable only via BEGIN after send_ok, '
+                'that each mechanism calls send_ok only after its proof with the authorised identity taken from '
+                'the proven one, that rejection clears both identities and counts against the failure bound before '
+                'the state change, that buffering is bounded per iteration, and that no message I/O happens before '
+                'the transport flag, which is set only from the AUTHENTICATED state plus an admission function.',
+        'note': NOT_DECIDED_COMMON + 'Not decided: SHA-1 / hex decoding correctness, chunking independence of the '
+                'line parser; a hash comparison helper other than the reviewed _dbus_string_equal is reported as a '
+                'violation until reviewed and added to rules/C08.py:EQUALITY. Oracle table SPEC in rules/C08.py is '
+                'transcribed from doc/dbus-specification.xml (Authentication state diagrams, Server states).',
+        'design': 'DESIGN.md section 3, C08',
+    },
 }
 
 NOT_APPLICABLE = {
